@@ -40,17 +40,19 @@ def export_scenarios(ctx, cfgs, path):
     return scs
 
 
-def run_traces(ctx, name, drv_args, timeout=1500):
-    """Runs `vdrv req`, normalises and validates the trace.  Returns (verdict, stats, reqinfo, nevents)."""
+def run_traces(ctx, name, drv_args, timeout=1500, sub="req"):
+    """Runs `vdrv req` (or `vdrv gates`), normalises and validates the trace.  Returns (verdict, stats, reqinfo, rawevents)."""
     raw = ctx.path("raw-%s.ndjson" % name)
     stats = ctx.path("stats-%s.json" % name)
-    ctx.drv(["req", "-out", raw, "-stats", stats] + drv_args, timeout=timeout)
+    ctx.drv([sub, "-out", raw, "-stats", stats] + drv_args, timeout=timeout)
     st = json.load(open(stats))
     rawev = core.read_ndjson(raw)
     events, hosts, numconns, reqinfo = reqtrace.normalise(rawev)
     sw = core.tree_switches()
+    # the observable-level specification always states the property: a failed re-prepare moves on, a failed
+    # retry on the same host moves on (the legacy switches exist only for sensitivity runs of the models)
     cfg = {"hosts": hosts, "numconns": numconns, "streamlimit": 2048,
-           "reprepare_fail_forwards": sw["reprepare_fail_forwards"], "retry_same_spins": sw["retry_same_spins"]}
+           "reprepare_fail_forwards": False, "retry_same_spins": False}
     v = core.validate_trace(ctx, "TraceRequestObs", events, cfg, name=name)
     v["events"] = events
     os.remove(raw)
@@ -85,6 +87,24 @@ def report(ctx, v, reqinfo, own, sample_events=None, tag=None):
     return others
 
 
+def design_check(ctx, thorough):
+    """Design-level model (goroutines, locks): deadlock freedom, at-most-one reply, termination."""
+    ctx.tlc_must_pass("RequestMC", "RequestMC_quick.cfg", timeout=1500, name="design-mc")
+    ctx.tlc_must_pass("RequestMC", "RequestMC_live.cfg", timeout=1500, workers=8, name="design-liveness")
+    if thorough:
+        for c in ("RequestMC_thorough_3h.cfg", "RequestMC_thorough_3r.cfg"):
+            ctx.tlc_must_pass("RequestMC", c, timeout=3400, name="design-mc")
+        # sensitivity: with the pinned tree's behaviour the model must exhibit the hazards
+        sens = {}
+        r = ctx.tlc("RequestMC", "RequestMC_pinned_deadlock.cfg", timeout=900, count=False, name="sensitivity-closing-cycle")
+        sens["closing_holds_lock"] = r.violated
+        r = ctx.tlc("RequestMC", "RequestMC_pinned_spin.cfg", timeout=900, workers=8, count=False, name="sensitivity-retry-same")
+        sens["retry_same_sticks"] = r.violated
+        ctx.notes["design_model_sensitivity"] = sens
+        if sens["closing_holds_lock"] != "deadlock" or sens["retry_same_sticks"] != "temporal":
+            raise core.Inconclusive("design model lost its sensitivity to the known hazards: %s" % sens)
+
+
 def model_check(ctx, thorough):
     cfgs = ["RequestObsMC_quick_idem.cfg", "RequestObsMC_quick_nonidem.cfg"]
     if thorough:
@@ -107,11 +127,13 @@ def write_scripts(path, scs):
             f.write(json.dumps({k: s[k] for k in ("id", "idem", "outcomes") if k in s} | ({"kind": s["kind"]} if "kind" in s else {})) + "\n")
 
 
-def run_property(ctx, own, plans, scenario_filter=None, nscen=700, extra_cov=None):
+def run_property(ctx, own, plans, scenario_filter=None, nscen=700, extra_cov=None, design=False):
     """plans: list of (name, driver args without -in, use_scripts: bool)."""
     thorough = ctx.tier == "thorough"
     rnd = random.Random(ctx.seed)
     model_check(ctx, thorough)
+    if design:
+        design_check(ctx, thorough)
     scs = export_scenarios(ctx, ["RequestObsMC_export_idem.cfg", "RequestObsMC_export_nonidem.cfg",
                                  "RequestObsMC_export_drops.cfg", "RequestObsMC_export_drops_nonidem.cfg"],
                            ctx.path("scenarios_all.jsonl"))
@@ -126,9 +148,11 @@ def run_property(ctx, own, plans, scenario_filter=None, nscen=700, extra_cov=Non
         name, args, scripted = plan[0], plan[1], plan[2]
         tag = plan[3] if len(plan) > 3 else None
         a = (["-in", path] if scripted else []) + args
-        v, st, reqinfo, _ = run_traces(ctx, name, a)
+        if scripted == "gates":
+            a = args
+        v, st, reqinfo, _ = run_traces(ctx, name, a, sub="gates" if scripted == "gates" else "req")
         total_events += v["total"]
-        traces += st["rounds"]
+        traces += st.get("rounds", 1)
         nreq += len(reqinfo)
         st.pop("goroutine_dump", None)
         stats_all.append({name: st})
